@@ -31,11 +31,11 @@ out = ["## 10. Seeded changes: which checks catch which", "",
        "fails with it and passes without it) before keeping it under `seeded/<id>/` (patch.diff, demo.rs, meta.json). `tools/seeded.py run <id>` applies the patch to /repo, "
        "runs the listed checks (quick tier) and undoes it; the table is generated from the recorded outcomes. *caught* = exit 1 with a VIOLATION line naming the obligation; "
        "*undecided* = exit 2 (the unit no longer extracts/verifies and no witness harness produced a counterexample); *missed* = exit 0.", "",
-       "Seven batches were written (A-D: first two batches, E-H: batches 3-5 aimed at the code that came under contract later, P-S: batch 6 aimed at the indicator-level constancy contracts and the extended C15 laws, C11/C18 P-R: batch 7 aimed at the default configurations and the text forms). What the misses and 'undecided' answers of each batch led to: "
+       "Eight batches were written (A-D: first two batches, E-H: batches 3-5 aimed at the code that came under contract later, P-S: batch 6 aimed at the indicator-level constancy contracts and the extended C15 laws, C11/C18 P-R: batch 7 aimed at the default configurations and the text forms, C01/C16/C20 K-L: batch 8 aimed at the three properties with the fewest changes so far). What the misses and 'undecided' answers of each batch led to: "
        "batch 2 - Sequence::apply / new_fn / reversal warm-up put under contract or bounded harness; batch 3 - result hints made contract-level (`>>W`), R::signum / R::from, the `get` alias in the SMM unit, "
        "existential-free CMF postcondition, odd-length apply witness, Kaufman's filtered signal specified, SMM quad witness with its own timeout; batch 4 - rule R11 (serde error construction), prefix anchors, "
        "R::is_normal, the dyn harness extended to `over` with history, ma_dispatch added to C15, (2,2) reversal harnesses, a driver fix (functions carrying an attribute were not credited with their errors); "
-       "batch 5 - vk_window_get (complete), the window-1 bit harness for the sign of zero (thorough tier); batch 6 - short `//@replace` anchors (C08-Q, a pivot detector seeded with the price, first ended as a lost anchor; now it fails AwesomeOscillator::init's const_state postcondition), the bounded Conv weight-profile harness (C15-Q trims trailing zero weights in a new `while` loop: Verus rejects the loop without a contract and CBMC runs out of memory on the Vec shrink, so it stays undecided); C08-P (ParabolicSAR `<` to `<=`) is caught only because the step contract now fixes the acceleration counter (psar_step); batch 7 - all six caught: the default-configuration harness names the indicator whose default no longer validates, MA::from_str mapping `tema` to TMA fails the from_str postcondition, and the two changes that replace a std text primitive (`parse::<usize>() as PeriodType`, `trim_start`) make the unit lose its anchor / be rejected, after which the concrete-spelling Kani harnesses supply the failing input (`sma-256` accepted, `LOW ` rejected). The outcomes below are the ones recorded at the last run of each change; the early changes whose units were "
+       "batch 5 - vk_window_get (complete), the window-1 bit harness for the sign of zero (thorough tier); batch 6 - short `//@replace` anchors (C08-Q, a pivot detector seeded with the price, first ended as a lost anchor; now it fails AwesomeOscillator::init's const_state postcondition), the bounded Conv weight-profile harness (C15-Q trims trailing zero weights in a new `while` loop: Verus rejects the loop without a contract and CBMC runs out of memory on the Vec shrink, so it stays undecided); C08-P (ParabolicSAR `<` to `<=`) is caught only because the step contract now fixes the acceleration counter (psar_step); batch 7 - all six caught: the default-configuration harness names the indicator whose default no longer validates, MA::from_str mapping `tema` to TMA fails the from_str postcondition, and the two changes that replace a std text primitive (`parse::<usize>() as PeriodType`, `trim_start`) make the unit lose its anchor / be rejected, after which the concrete-spelling Kani harnesses supply the failing input (`sma-256` accepted, `LOW ` rejected). batch 8 - five of six caught: a partially consumed iterator's size_hint and a from_parts rotation in the wrong direction fail the `window` postconditions (remaining() / view of the rebuilt ring), an f32 NaN swallowed by `max/min` and a wrapping opposite-sign subtraction fail the complete Kani harnesses vk_action_from_f32_total / vk_action_sub, and LinReg's integer intermediates narrowed to u32 fail the overflow obligations of `lin_reg` only in the PT_U16/PT_U64 re-runs (exactly the C20 mechanism); C20-L replaces `.enumerate()` in the HighestIndex/LowestIndex rescan by `.zip(0..=u8::MAX)`, a different iterator chain that vx's desugaring rule does not recognise, so Verus rejects the generated unit and the check answers undecided (exit 2, no alarm) - a window of 257+ symbolic elements is out of Kani's reach, so no bounded stand-in was added. The outcomes below are the ones recorded at the last run of each change; the early changes whose units were "
        "touched afterwards (window, SMM, combinators, reversal, Action, serde) were re-run against the final machinery.", "",
        "| id | confirmed | what it needs to manifest (author's words, first line) | outcome per check |", "|---|---|---|---|"]
 for r in rows:
